@@ -1,0 +1,9 @@
+//go:build !verif
+
+// Package simhook provides cooperative scheduler yield points for the
+// deterministic simulator of the verification framework. Without the `verif`
+// build tag Yield is an empty function that the compiler inlines away.
+package simhook
+
+// Yield is a no-op in regular builds.
+func Yield(string) {}
